@@ -1,5 +1,5 @@
 //@ unit R_core
-//@ props C14 C01
+//@ props C14 C01 C09
 //@ strength proved-unbounded
 //@ min-verified 40
 //@ assume slice lengths fit usize (ReadScope::new ensures wf only under data.len() <= usize::MAX)
